@@ -386,6 +386,7 @@ void reb_simulation_remove_all_particles(struct reb_simulation* const r){
 	r->N_active 	= -1;
 	r->N_var 	= 0;
 	r->N_var_config = 0;	// The variational configurations refer to indices of the removed particles.
+	r->calculate_megno = 0;	// It is the index of the (removed) MEGNO variational particles: left set, the integrators kept reading particles[calculate_megno..] beyond N.
 	free(r->particles);
 	r->particles 	= NULL;
 }
